@@ -8,6 +8,7 @@
   * `useSys = false` (spec column): the POSIX rules of `Spec.lean` applied to the true statuses.
 -/
 import YashModel.Proc.Model
+import YashModel.Proc.Pipeline
 import YashModel.Proc.Spec
 namespace YashModel.Proc
 
@@ -31,6 +32,7 @@ inductive WOp where
 inductive Stmt where
   | pf (on : Bool)
   | pipe (neg : Bool) (ms : List Member)
+  | flow (fs : List Spec.Flow)
   | bg (ms : List Member)
   | wj (ops : List WOp)
   | w
@@ -182,6 +184,21 @@ def St.waitAllJobs (st : St) : St :=
     { st1 with status := if v = 998 then 998 else 0, active := if v = 998 then st1.active else [] }
   else { st with status := 0, active := [] }
 
+def flowProg : Spec.Flow → SProg
+  | .spew n => .spew n
+  | .cat => .cat 0
+  | .drain => .drain
+  | .take k st => .take k st
+  | .st n => .idle n
+
+/-- statuses of the stages of a flow pipeline: model column = a run of the pipeline model (`prun`, real
+    constants) under the schedule digits; spec column = `Spec.flowStatuses` -/
+def flowStatuses (useSys : Bool) (digits : List Nat) (salt : Nat) (fs : List Spec.Flow) : List Nat :=
+  if useSys then
+    let t := prun PCfg.real 4000 (mkChoices digits salt ++ mkChoices digits (salt + 7)) (mkPipeline (fs.map flowProg))
+    if t.done then t.statuses else fs.map fun _ => 998
+  else Spec.flowStatuses 0 fs
+
 def St.subshell (st : St) (v : Nat) : St :=
   let (st1, got) := st.forkWait [v]
   { st1 with status := got.getD 0 999 }
@@ -195,6 +212,9 @@ def St.stmt (st : St) : Stmt → St
     match pipeOutput ms with
     | some w => { st2 with out := s!"o:{w}" :: st2.out }
     | none => st2
+  | .flow fs =>
+    let (st1, got) := st.forkWait (flowStatuses st.useSys st.digits st.runs fs)
+    { st1 with status := pipeFold st.useSys st.pf got }
   | .bg ms =>
     let sts := st.members ms
     let v := match sts with
